@@ -246,6 +246,11 @@ class Server:
             self.port = free_port()
             self.addr = ("127.0.0.1", self.port)
             self.bind = "127.0.0.1:%d" % self.port
+        elif bind == "tcpname":
+            # the address as an administrator may write it: a host name (what the kernel reports for the socket is the number)
+            self.port = free_port()
+            self.addr = ("127.0.0.1", self.port)
+            self.bind = "localhost:%d" % self.port
         elif bind == "tcp6":
             self.port = free_port()
             self.addr = ("::1", self.port)
